@@ -524,10 +524,12 @@ def work_quartic(chunk):
         # the base step as a scalar, and per coordinate (documented "float, array-like") as ndarray / list: the four steps
         # of every coordinate still determine the h, h^2 terms of a quartic exactly
         per = [0.01, 0.02, 0.005, 0.015][:n]
-        forms = [('scalar', 0.01), ('negative', -0.01)] + ([('ndarray', np.array(per)), ('list', list(per))] if n > 1 else [])
+        forms = [('scalar', 0.01), ('negative', -0.01)] + ([('ndarray', np.array(per)), ('list', list(per)), ('tuple+step_nom', tuple(per))] if n > 1 else [])
         for (entry, order), (form, base) in itertools.product(entries, forms):
             fw.fresh_library_state()
-            kw = dict(method=method, step=MinStepGenerator(base_step=base, num_steps=4, step_ratio=2))
+            # ('tuple+step_nom': what a plain per-coordinate `step=(...)` turns into: the base step as given, step_nom = 1)
+            kw = dict(method=method, step=MinStepGenerator(base_step=base, num_steps=4, step_ratio=2,
+                                                           **(dict(step_nom=1.0) if form == 'tuple+step_nom' else {})))
             if order is not None:
                 kw['order'] = order
             case = ('quartic', n, xk, method, entry, order) + (() if form == 'scalar' else (form,))
